@@ -384,6 +384,28 @@ def do_act(world, ws, act):
         world.log('R:ok')
 
 
+_BFINAL_SAFE = None
+
+
+def bfinal_safe():
+    """variant detection (finding D6): does the real `Deflate.decompress` survive a deflate block
+       with BFINAL=1 under context takeover?  Probe: the RFC 7692 7.2.3.4 message ("Hello" in a
+       final block) followed by an ordinary compressed "Hello"; the unrepaired code returns an empty string
+       for the second one.  The model driver is started with the matching inflater (`zsafe=1`)."""
+    global _BFINAL_SAFE
+    if _BFINAL_SAFE is None:
+        from lomond.compression import Deflate
+        from lomond.frame import Frame
+        try:
+            d = Deflate(15, 15, False, False)
+            first = d.decompress([Frame(1, bytes.fromhex('f348cdc9c9070000'))])
+            second = d.decompress([Frame(1, bytes.fromhex('f248cdc9c90700'))])
+            _BFINAL_SAFE = (bytes(first), bytes(second)) == (b'Hello', b'Hello')
+        except Exception:  # noqa -- neither shape: treated as unrepaired, the checks will show the difference
+            _BFINAL_SAFE = False
+    return _BFINAL_SAFE
+
+
 def scenario_line(sc):
     """the operation line handed to the Lean driver"""
     ws = WebSocket(sc.url, proxies={}, protocols=sc.protocols or None, compress=sc.compress)
@@ -398,6 +420,8 @@ def scenario_line(sc):
            'autopong=%d' % (1 if sc.autopong else 0), 'ctimeout=%d' % sc.ctimeout, 'conn=' + sc.conn,
            'req=' + req.hex(), 'chal=' + sc.challenge().hex(),
            'wfail=' + (','.join(str(k) for k in sorted(sc.wfail)) if sc.wfail else '-')]
+    if bfinal_safe():
+        cfg.append('zsafe=1')
     env = []
     for st in sc.env:
         if st[0] == 'selerr':
